@@ -177,4 +177,47 @@ def stepsLeft (th : Thread) : Nat :=
 
 def measure (s : State) : Nat := sumBy stepsLeft s.threads
 
+/-! ### `WaitSemaphore` and EINTR (util/pcqueue.hh:59-71)
+
+`while (1) { try { on.wait(); break; } catch (interprocess_exception &e) { if (e.get_native_error() != EINTR) throw; } }`
+`sem_wait` may return EINTR any number of times (a signal handled without SA_RESTART) before it takes a token. -/
+
+inductive WaitOutcome | taken | eintr
+  deriving DecidableEq, Repr
+
+/-- the OS side of one `sem_wait` on a semaphore holding `count` tokens; `none` = this outcome cannot happen -/
+def osWait (count : Nat) : WaitOutcome → Option Nat
+  | .taken => if count = 0 then none else some (count - 1)
+  | .eintr => some count
+
+/-- `WaitSemaphore` run against the sequence of outcomes of its `sem_wait` calls: `some (count', unused outcomes)`
+when the loop has been left, `none` while it is still waiting -/
+def waitSemaphore : Nat → List WaitOutcome → Option (Nat × List WaitOutcome)
+  | _, [] => none
+  | c, .taken :: os => match osWait c .taken with
+    | some c' => some (c', os)      -- `break`
+    | none => none
+  | c, .eintr :: os => waitSemaphore c os   -- EINTR caught: go round the loop again
+
+/-- the loop of the change seeded as C17-3 (`do { interrupted = false; try { on.wait(); } catch (EINTR) {} }
+while (interrupted);`): leaves the loop after the first `sem_wait`, whatever it returned -/
+def waitSemaphoreFlagNeverSet : Nat → List WaitOutcome → Option (Nat × List WaitOutcome)
+  | _, [] => none
+  | c, o :: os => match osWait c o with
+    | some c' => some (c', os)
+    | none => none
+
+/-- a signal interrupts the `sem_wait` of thread `tid` while it is at (or inside) its `WaitSemaphore`: the loop
+retries; nothing else happens -/
+def interrupt (s : State) (tid : Nat) : Option State :=
+  match s.threads[tid]? with
+  | some th => if th.pc = .wait then some s else none
+  | none => none
+
+/-- reachability when signals may interrupt any waiting thread at any time -/
+inductive ReachI (s0 : State) : State → Prop
+  | init : ReachI s0 s0
+  | step {s s' : State} {t : Nat} : ReachI s0 s → step s t = some s' → ReachI s0 s'
+  | intr {s s' : State} {t : Nat} : ReachI s0 s → interrupt s t = some s' → ReachI s0 s'
+
 end KV.PCQueue
